@@ -3,7 +3,7 @@ Hand-written specification of the Linux UAPI numbers (include/uapi/linux/audit.h
 library's constants must equal. Independent of the Go sources. (Values transcribed from
 /usr/include/linux/audit.h of this sandbox.)
 -/
-namespace LA.Spec.Uapi
+namespace LA.Spec.RuleUapi
 
 def fields : List (List Nat × Nat) := [
   ([97, 48], 200) /- a0 = AUDIT_ARG0 -/,
@@ -112,6 +112,33 @@ def comparisons : List (String × Nat) := [
   ("AUDIT_COMPARE_EGID_TO_FSGID", 23),
   ("AUDIT_COMPARE_EGID_TO_SGID", 24),
   ("AUDIT_COMPARE_SGID_TO_FSGID", 25)]
+/-- (field A, field B, comparison code) read off the AUDIT_COMPARE_A_TO_B names. -/
+def comparePairs : List (Nat × Nat × Nat) := [
+  (1, 109, 1) /- AUDIT_COMPARE_UID_TO_OBJ_UID -/,
+  (5, 110, 2) /- AUDIT_COMPARE_GID_TO_OBJ_GID -/,
+  (2, 109, 3) /- AUDIT_COMPARE_EUID_TO_OBJ_UID -/,
+  (6, 110, 4) /- AUDIT_COMPARE_EGID_TO_OBJ_GID -/,
+  (9, 109, 5) /- AUDIT_COMPARE_AUID_TO_OBJ_UID -/,
+  (3, 109, 6) /- AUDIT_COMPARE_SUID_TO_OBJ_UID -/,
+  (7, 110, 7) /- AUDIT_COMPARE_SGID_TO_OBJ_GID -/,
+  (4, 109, 8) /- AUDIT_COMPARE_FSUID_TO_OBJ_UID -/,
+  (8, 110, 9) /- AUDIT_COMPARE_FSGID_TO_OBJ_GID -/,
+  (1, 9, 10) /- AUDIT_COMPARE_UID_TO_AUID -/,
+  (1, 2, 11) /- AUDIT_COMPARE_UID_TO_EUID -/,
+  (1, 4, 12) /- AUDIT_COMPARE_UID_TO_FSUID -/,
+  (1, 3, 13) /- AUDIT_COMPARE_UID_TO_SUID -/,
+  (9, 4, 14) /- AUDIT_COMPARE_AUID_TO_FSUID -/,
+  (9, 3, 15) /- AUDIT_COMPARE_AUID_TO_SUID -/,
+  (9, 2, 16) /- AUDIT_COMPARE_AUID_TO_EUID -/,
+  (2, 3, 17) /- AUDIT_COMPARE_EUID_TO_SUID -/,
+  (2, 4, 18) /- AUDIT_COMPARE_EUID_TO_FSUID -/,
+  (3, 4, 19) /- AUDIT_COMPARE_SUID_TO_FSUID -/,
+  (5, 6, 20) /- AUDIT_COMPARE_GID_TO_EGID -/,
+  (5, 8, 21) /- AUDIT_COMPARE_GID_TO_FSGID -/,
+  (5, 7, 22) /- AUDIT_COMPARE_GID_TO_SGID -/,
+  (6, 8, 23) /- AUDIT_COMPARE_EGID_TO_FSGID -/,
+  (6, 7, 24) /- AUDIT_COMPARE_EGID_TO_SGID -/,
+  (7, 8, 25) /- AUDIT_COMPARE_SGID_TO_FSGID -/]
 -- S_IF* file type bits (include/uapi/linux/stat.h)
 def S_IFREG : Nat := 32768
 def S_IFSOCK : Nat := 49152
@@ -121,4 +148,4 @@ def S_IFDIR : Nat := 16384
 def S_IFCHR : Nat := 8192
 def S_IFIFO : Nat := 4096
 
-end LA.Spec.Uapi
+end LA.Spec.RuleUapi
